@@ -184,3 +184,62 @@ package cdata
 //@   assigns nd.Impl[*]
 //@   ensures [C03.copyfrom-footprint,C01.copyfrom-footprint] forall(j, 0, iprod(other.shape, other.rank), nd.Impl[old(nd.Start) + sladdr(other.shape, nd.OffsetStep, nilints, 1, j, other.rank, other.rank)] == other.at(j))
 
+
+// ---- Reshape of the C back-end: same contract as the Go back-end ----
+
+//@ func (*nd{t}C).Reshape(nd, newShape) returns (r, err)
+//@   locals result, size, currentSize, reshapeToSeries, seriesDim
+//@   safety C02
+//@   simplify entry-ids
+//@   chain ensures
+//@   uses C02.lemma-iprod-positive
+//@   instantiate C02.lemma-contig-addresses(nd.Dims, nd.OffsetStep, len(nd.Dims), 0)
+//@   atexit instantiate C02.lemma-contig-addresses(newShape, as(r, nd{t}C).OffsetStep, len(newShape), 0)
+//@   atexit instantiate C02.lemma-contig-addresses(newShape, as(r, nd{t}).OffsetStep, len(newShape), 0)
+//@   requires len(newShape) >= 1 && forall(k, 0, len(newShape), newShape[k] >= 1)
+//@   requires len(nd.Dims) >= 1 && len(nd.OffsetStep) == len(nd.Dims) && len(nd.OriginalDims) == len(nd.Dims) && len(nd.Step) == len(nd.Dims) && len(nd.Offset) == len(nd.Dims)
+//@   requires forall(k, 0, len(nd.Dims), nd.OffsetStep[k] == nd.Offset[k]*nd.Step[k] && nd.Step[k] >= 1 && nd.Offset[k] == pfrom(nd.OriginalDims, k+1, len(nd.Dims)))
+//@   requires forall(k, 0, len(nd.Dims), nd.Dims[k] >= 1)
+//@   requires forall(j, 0, iprod(nd.Dims, len(nd.Dims)), 0 <= nd.Start + rmaddr(nd.Dims, nd.OffsetStep, j, len(nd.Dims), len(nd.Dims)) && nd.Start + rmaddr(nd.Dims, nd.OffsetStep, j, len(nd.Dims), len(nd.Dims)) < nd.Impl.buflen)
+//@   requires 0 <= nd.Start + rmaddr(nd.Dims, nd.OffsetStep, 0, len(nd.Dims), len(nd.Dims)) && nd.Start + rmaddr(nd.Dims, nd.OffsetStep, 0, len(nd.Dims), len(nd.Dims)) < nd.Impl.buflen && 0 <= nd.Start + rmaddr(nd.Dims, nd.OffsetStep, iprod(nd.Dims, len(nd.Dims)) - 1, len(nd.Dims), len(nd.Dims)) && nd.Start + rmaddr(nd.Dims, nd.OffsetStep, iprod(nd.Dims, len(nd.Dims)) - 1, len(nd.Dims), len(nd.Dims)) < nd.Impl.buflen
+//@   assigns nothing
+//@   ensures [C03.reshape-size-check] iff(err.isnil, iprod(newShape, len(newShape)) == iprod(nd.Dims, len(nd.Dims)))
+//@   ensures [C03.reshape-aliases-when-contiguous] implies(err.isnil && contigc(nd.Dims, nd.OriginalDims, nd.Step, nd.Offset, len(nd.Dims)), as(r, nd{t}C).Impl == nd.Impl)
+//@   ensures [C03.reshape-header] implies(err.isnil && contigc(nd.Dims, nd.OriginalDims, nd.Step, nd.Offset, len(nd.Dims)), as(r, nd{t}C).Dims == newShape && len(as(r, nd{t}C).OffsetStep) >= 1)
+//@   ensures [C03.reshape-header-gathered] implies(err.isnil && !contigc(nd.Dims, nd.OriginalDims, nd.Step, nd.Offset, len(nd.Dims)), as(r, nd{t}).Dims == newShape && as(r, nd{t}).Start == 0 && len(as(r, nd{t}).Impl) == iprod(nd.Dims, len(nd.Dims)) && len(as(r, nd{t}).OffsetStep) == len(newShape) && forall(k, 0, len(newShape), as(r, nd{t}).OffsetStep[k] == pfrom(newShape, k+1, len(newShape))))
+//@   ensures [C03.reshape-contiguous-strides] implies(err.isnil && contigc(nd.Dims, nd.OriginalDims, nd.Step, nd.Offset, len(nd.Dims)), forall(k, 0, len(nd.Dims), implies(nd.Dims[k] > 1, nd.OffsetStep[k] == pfrom(nd.Dims, k+1, len(nd.Dims)))))
+//@   ensures [C03.reshape-contiguous-addresses] implies(err.isnil && contigc(nd.Dims, nd.OriginalDims, nd.Step, nd.Offset, len(nd.Dims)), forall(j, 0, iprod(nd.Dims, len(nd.Dims)), rmaddr(nd.Dims, nd.OffsetStep, j, len(nd.Dims), len(nd.Dims)) == j))
+//@   ensures [C03.reshape-result-addresses] implies(err.isnil && iprod(newShape, len(newShape)) > 1 && contigc(nd.Dims, nd.OriginalDims, nd.Step, nd.Offset, len(nd.Dims)), as(r, nd{t}C).Start == nd.Start && forall(j, 0, iprod(newShape, len(newShape)), rmaddr(newShape, as(r, nd{t}C).OffsetStep, j, len(newShape), len(newShape)) == j))
+//@   ensures [C03.reshape-rowmajor-contiguous,C02.reshape-rowmajor-contiguous] implies(err.isnil && iprod(newShape, len(newShape)) > 1 && contigc(nd.Dims, nd.OriginalDims, nd.Step, nd.Offset, len(nd.Dims)), forall(j, 0, iprod(newShape, len(newShape)), as(r, nd{t}C).Impl[as(r, nd{t}C).Start + rmaddr(newShape, as(r, nd{t}C).OffsetStep, j, len(newShape), len(newShape))] == nd.Impl[nd.Start + rmaddr(nd.Dims, nd.OffsetStep, j, len(nd.Dims), len(nd.Dims))]))
+//@   ensures [C03.reshape-gathered-addresses] implies(err.isnil && iprod(newShape, len(newShape)) > 1 && !contigc(nd.Dims, nd.OriginalDims, nd.Step, nd.Offset, len(nd.Dims)), forall(j, 0, iprod(newShape, len(newShape)), rmaddr(newShape, as(r, nd{t}).OffsetStep, j, len(newShape), len(newShape)) == j))
+//@   ensures [C03.reshape-rowmajor-gathered,C02.reshape-rowmajor-gathered] implies(err.isnil && iprod(newShape, len(newShape)) > 1 && !contigc(nd.Dims, nd.OriginalDims, nd.Step, nd.Offset, len(nd.Dims)), forall(j, 0, iprod(newShape, len(newShape)), as(r, nd{t}).Impl[as(r, nd{t}).Start + rmaddr(newShape, as(r, nd{t}).OffsetStep, j, len(newShape), len(newShape))] == nd.Impl[nd.Start + rmaddr(nd.Dims, nd.OffsetStep, j, len(nd.Dims), len(nd.Dims))]))
+
+//@ func (*nd{t}C).ReshapeFast(nd, newShape) returns (r, err)
+//@   safety C02
+//@   simplify entry-ids
+//@   requires len(newShape) >= 1 && forall(k, 0, len(newShape), newShape[k] >= 1)
+//@   requires len(nd.Dims) >= 1 && len(nd.OffsetStep) == len(nd.Dims) && len(nd.OriginalDims) == len(nd.Dims) && len(nd.Step) == len(nd.Dims) && len(nd.Offset) == len(nd.Dims)
+//@   requires forall(k, 0, len(nd.Dims), nd.OffsetStep[k] == nd.Offset[k]*nd.Step[k] && nd.Step[k] >= 1 && nd.Offset[k] == pfrom(nd.OriginalDims, k+1, len(nd.Dims)))
+//@   requires forall(k, 0, len(nd.Dims), nd.Dims[k] >= 1)
+//@   requires forall(j, 0, iprod(nd.Dims, len(nd.Dims)), 0 <= nd.Start + rmaddr(nd.Dims, nd.OffsetStep, j, len(nd.Dims), len(nd.Dims)) && nd.Start + rmaddr(nd.Dims, nd.OffsetStep, j, len(nd.Dims), len(nd.Dims)) < nd.Impl.buflen)
+//@   requires 0 <= nd.Start + rmaddr(nd.Dims, nd.OffsetStep, 0, len(nd.Dims), len(nd.Dims)) && nd.Start + rmaddr(nd.Dims, nd.OffsetStep, 0, len(nd.Dims), len(nd.Dims)) < nd.Impl.buflen && 0 <= nd.Start + rmaddr(nd.Dims, nd.OffsetStep, iprod(nd.Dims, len(nd.Dims)) - 1, len(nd.Dims), len(nd.Dims)) && nd.Start + rmaddr(nd.Dims, nd.OffsetStep, iprod(nd.Dims, len(nd.Dims)) - 1, len(nd.Dims), len(nd.Dims)) < nd.Impl.buflen
+//@   assigns nothing
+//@   ensures [C03.reshapefast-fails-exactly-when,C02.reshapefast-fails-exactly-when] iff(err.isnil, contigc(nd.Dims, nd.OriginalDims, nd.Step, nd.Offset, len(nd.Dims)) && iprod(newShape, len(newShape)) == iprod(nd.Dims, len(nd.Dims)))
+//@   ensures [C03.reshapefast-aliases,C02.reshapefast-aliases] implies(err.isnil, as(r, nd{t}C).Impl == nd.Impl)
+//@   ensures [C03.reshapefast-rowmajor,C02.reshapefast-rowmajor] implies(err.isnil && iprod(newShape, len(newShape)) > 1, forall(j, 0, iprod(newShape, len(newShape)), as(r, nd{t}C).Impl[as(r, nd{t}C).Start + rmaddr(newShape, as(r, nd{t}C).OffsetStep, j, len(newShape), len(newShape))] == nd.Impl[nd.Start + rmaddr(nd.Dims, nd.OffsetStep, j, len(nd.Dims), len(nd.Dims))]))
+
+//@ func (*nd{t}C).MustReshape(nd, newShape) returns (r)
+//@   locals result, e
+//@   safety C02
+//@   simplify entry-ids
+//@   requires len(newShape) >= 1 && forall(k, 0, len(newShape), newShape[k] >= 1)
+//@   requires len(nd.Dims) >= 1 && len(nd.OffsetStep) == len(nd.Dims) && len(nd.OriginalDims) == len(nd.Dims) && len(nd.Step) == len(nd.Dims) && len(nd.Offset) == len(nd.Dims)
+//@   requires forall(k, 0, len(nd.Dims), nd.OffsetStep[k] == nd.Offset[k]*nd.Step[k] && nd.Step[k] >= 1 && nd.Offset[k] == pfrom(nd.OriginalDims, k+1, len(nd.Dims)))
+//@   requires forall(k, 0, len(nd.Dims), nd.Dims[k] >= 1)
+//@   requires forall(j, 0, iprod(nd.Dims, len(nd.Dims)), 0 <= nd.Start + rmaddr(nd.Dims, nd.OffsetStep, j, len(nd.Dims), len(nd.Dims)) && nd.Start + rmaddr(nd.Dims, nd.OffsetStep, j, len(nd.Dims), len(nd.Dims)) < nd.Impl.buflen)
+//@   requires 0 <= nd.Start + rmaddr(nd.Dims, nd.OffsetStep, 0, len(nd.Dims), len(nd.Dims)) && nd.Start + rmaddr(nd.Dims, nd.OffsetStep, 0, len(nd.Dims), len(nd.Dims)) < nd.Impl.buflen && 0 <= nd.Start + rmaddr(nd.Dims, nd.OffsetStep, iprod(nd.Dims, len(nd.Dims)) - 1, len(nd.Dims), len(nd.Dims)) && nd.Start + rmaddr(nd.Dims, nd.OffsetStep, iprod(nd.Dims, len(nd.Dims)) - 1, len(nd.Dims), len(nd.Dims)) < nd.Impl.buflen
+//@   requires [C03.mustreshape-size] iprod(newShape, len(newShape)) == iprod(nd.Dims, len(nd.Dims))
+//@   assigns nothing
+//@   ensures [C03.mustreshape-aliases-when-contiguous,C02.mustreshape-aliases-when-contiguous] implies(contigc(nd.Dims, nd.OriginalDims, nd.Step, nd.Offset, len(nd.Dims)), as(r, nd{t}C).Impl == nd.Impl)
+//@   ensures [C03.mustreshape-rowmajor,C02.mustreshape-rowmajor] implies(iprod(newShape, len(newShape)) > 1 && contigc(nd.Dims, nd.OriginalDims, nd.Step, nd.Offset, len(nd.Dims)), forall(j, 0, iprod(newShape, len(newShape)), as(r, nd{t}C).Impl[as(r, nd{t}C).Start + rmaddr(newShape, as(r, nd{t}C).OffsetStep, j, len(newShape), len(newShape))] == nd.Impl[nd.Start + rmaddr(nd.Dims, nd.OffsetStep, j, len(nd.Dims), len(nd.Dims))]))
+//@   ensures [C03.mustreshape-rowmajor-gathered,C02.mustreshape-rowmajor-gathered] implies(iprod(newShape, len(newShape)) > 1 && !contigc(nd.Dims, nd.OriginalDims, nd.Step, nd.Offset, len(nd.Dims)), forall(j, 0, iprod(newShape, len(newShape)), as(r, nd{t}).Impl[as(r, nd{t}).Start + rmaddr(newShape, as(r, nd{t}).OffsetStep, j, len(newShape), len(newShape))] == nd.Impl[nd.Start + rmaddr(nd.Dims, nd.OffsetStep, j, len(nd.Dims), len(nd.Dims))]))
